@@ -163,4 +163,6 @@ pub fn run(run: &Run) {
             if i < 5 { run.sample(json!({"value": brief_v(&c.v), "position": c.position, "members": c.n_members, "trailing_ws": c.trailing_ws, "filters": c.filters, "length_mode": c.length_mode})); }
         });
     });
+    // thorough: the same quick workload once more under the AddressSanitizer build (memory errors in the library or its dependencies)
+    if !run.quick() { crate::lanes::asan_rerun(run); }
 }
